@@ -20,3 +20,4 @@ def suites():
               nontrivial=lambda r, o: o.count("ok:") >= 1,
               rule="histories of up to 8 commands; after each step the re-read records are compared with an abstract model written from the property text (python), the file of one step being the input of the next"),
     ]
+from props.commands import k15_track_leading_blank
